@@ -3,6 +3,7 @@ package main
 import (
 	"fmt"
 	"go/types"
+	"hash/fnv"
 
 	"golang.org/x/tools/go/ssa"
 )
@@ -25,7 +26,7 @@ type Frame struct {
 }
 
 type frameField struct {
-	Addr *Term
+	Addr  *Term
 	SName string
 	Field string // "" = all
 }
@@ -41,44 +42,44 @@ type stopPoint struct {
 }
 
 type State struct {
-	cells    map[*Cell]Val
-	regs     map[ssa.Value]Val
-	allocs   map[*ssa.Alloc]*Cell
-	heap     map[string]*Term
-	pc       []*Term
-	frames   []*Frame
-	entered  map[*ssa.BasicBlock]bool
-	prev     *ssa.BasicBlock
-	defers   []deferred
-	trace    []string
-	panicVal *Val // set while running deferred closures on a panicking path
-	recovered bool
-	depth    int
-	caseLit  *Term
-	ghosts   map[string]*Term
-	stopAt   []stopPoint
-	phiDone  *ssa.BasicBlock
+	cells      map[*Cell]Val
+	regs       map[ssa.Value]Val
+	allocs     map[*ssa.Alloc]*Cell
+	heap       map[string]*Term
+	pc         []*Term
+	frames     []*Frame
+	entered    map[*ssa.BasicBlock]bool
+	prev       *ssa.BasicBlock
+	defers     []deferred
+	trace      []string
+	panicVal   *Val // set while running deferred closures on a panicking path
+	recovered  bool
+	depth      int
+	caseLit    *Term
+	ghosts     map[string]*Term
+	stopAt     []stopPoint
+	phiDone    *ssa.BasicBlock
 	ghostOther bool // a hypothetical non-ErrNaN panic is in flight (handler check)
 }
 
 func (s *State) clone() *State {
 	n := &State{
-		cells:   make(map[*Cell]Val, len(s.cells)),
-		regs:    make(map[ssa.Value]Val, len(s.regs)),
-		allocs:  make(map[*ssa.Alloc]*Cell, len(s.allocs)),
-		heap:    make(map[string]*Term, len(s.heap)),
-		pc:      s.pc[:len(s.pc):len(s.pc)],
-		frames:  s.frames[:len(s.frames):len(s.frames)],
-		entered: make(map[*ssa.BasicBlock]bool, len(s.entered)),
-		prev:    s.prev,
-		defers:  s.defers[:len(s.defers):len(s.defers)],
-		trace:   s.trace[:len(s.trace):len(s.trace)],
-		panicVal: s.panicVal,
-		recovered: s.recovered,
-		depth:   s.depth,
+		cells:      make(map[*Cell]Val, len(s.cells)),
+		regs:       make(map[ssa.Value]Val, len(s.regs)),
+		allocs:     make(map[*ssa.Alloc]*Cell, len(s.allocs)),
+		heap:       make(map[string]*Term, len(s.heap)),
+		pc:         s.pc[:len(s.pc):len(s.pc)],
+		frames:     s.frames[:len(s.frames):len(s.frames)],
+		entered:    make(map[*ssa.BasicBlock]bool, len(s.entered)),
+		prev:       s.prev,
+		defers:     s.defers[:len(s.defers):len(s.defers)],
+		trace:      s.trace[:len(s.trace):len(s.trace)],
+		panicVal:   s.panicVal,
+		recovered:  s.recovered,
+		depth:      s.depth,
 		ghostOther: s.ghostOther,
-		stopAt:  s.stopAt[:len(s.stopAt):len(s.stopAt)],
-		phiDone: s.phiDone,
+		stopAt:     s.stopAt[:len(s.stopAt):len(s.stopAt)],
+		phiDone:    s.phiDone,
 	}
 	if len(s.ghosts) > 0 {
 		n.ghosts = make(map[string]*Term, len(s.ghosts))
@@ -208,6 +209,9 @@ func (fc *FnCtx) typeAssume(v Val, nalloc, nobj *Term) *Term {
 			mkLe(v.Cap, mkInt(pow2(48))), mkLe(v.Off, mkInt(pow2(48))))
 		if nalloc != nil {
 			c = mkAnd(c, mkLt(v.Arr, nalloc))
+		}
+		if et := fc.eltyTerm(v); et != nil {
+			c = mkAnd(c, et)
 		}
 		return c
 	case VStruct, VTuple:
@@ -377,3 +381,65 @@ func heapKeysOfField(sname string, f *types.Var) map[string]Sort {
 type unsupported string
 
 func (u unsupported) Error() string { return string(u) }
+
+// eltyTerm states Go's type safety for slices: an array with room for at least one element holds
+// elements of one named type only, so slices of different element types ([]Word, []big.Word,
+// []byte) never share a backing array (the package does not use unsafe).  elty is uninterpreted.
+func (fc *FnCtx) eltyTerm(v Val) *Term {
+	if v.K != VSlice || v.Typ == nil || !fc.eltyNeeded() {
+		return nil
+	}
+	sl, ok := v.Typ.Underlying().(*types.Slice)
+	if !ok {
+		return nil
+	}
+	h := fnv.New32a()
+	h.Write([]byte(types.TypeString(sl.Elem(), nil)))
+	id := int64(h.Sum32()%1000000) + 1
+	return mkImp(mkLt(mkI(0), v.Cap), mkEq(app("elty", SInt, v.Arr), mkI(id)))
+}
+
+// eltyNeeded: the element-type facts are only emitted in functions that handle slices of at least two
+// different element types (parameters, results, or any value in the body); everywhere else they could not
+// be used and would only perturb the solvers.
+func (fc *FnCtx) eltyNeeded() bool {
+	if fc.eltyOn != 0 {
+		return fc.eltyOn > 0
+	}
+	seen := map[string]bool{}
+	note := func(t types.Type) {
+		if t == nil {
+			return
+		}
+		if p, ok := t.Underlying().(*types.Pointer); ok {
+			t = p.Elem()
+		}
+		if sl, ok := t.Underlying().(*types.Slice); ok {
+			seen[types.TypeString(sl.Elem(), nil)] = true
+		}
+	}
+	if fc.fn != nil {
+		sig := fc.fn.Signature
+		for i := 0; i < sig.Params().Len(); i++ {
+			note(sig.Params().At(i).Type())
+		}
+		for i := 0; i < sig.Results().Len(); i++ {
+			note(sig.Results().At(i).Type())
+		}
+		if sig.Recv() != nil {
+			note(sig.Recv().Type())
+		}
+		for _, b := range fc.fn.Blocks {
+			for _, in := range b.Instrs {
+				if v, ok := in.(ssa.Value); ok {
+					note(v.Type())
+				}
+			}
+		}
+	}
+	fc.eltyOn = -1
+	if len(seen) >= 2 {
+		fc.eltyOn = 1
+	}
+	return fc.eltyOn > 0
+}
